@@ -45,6 +45,8 @@ func dhcpNets() []dhcpNet {
 		mk("home/28+nf/29", "192.168.0.0/28", "192.168.0.9", "192.168.0.9/29"),
 		mk("home/24+nf/25", "192.168.0.0/24", "192.168.0.129", "192.168.0.129/25"),
 		mk("home/28+nf/30", "192.168.0.0/28", "192.168.0.13", "192.168.0.13/30"),
+		// netfilter subnet with the same network address as the home LAN (they differ only in the prefix length)
+		mk("home/24+nf/25low", "192.168.0.0/24", "192.168.0.5", "192.168.0.5/25"),
 	}
 }
 
